@@ -68,6 +68,19 @@ def cases(tier, rng):
         ops.append("status")
         out.append("p%d proxy %s %s%s%s / %s" % (k, pair[0], pair[1], " cap" if cap else "", " prepoll" if rng.random() < 0.3 else "", " / ".join(ops)))
         k += 1
+    # more than a MiB in each direction with both sides ready in the same polls
+    for pair in (("ROUTER", "DEALER"), ("DEALER", "DEALER")):
+        nmsg, size = 20, 60000
+        ops = ["fattach a %s id=4361" % ("REQ" if pair[0] == "ROUTER" else "DEALER"), "battach x %s id=5778" % ("REP" if pair[1] == "DEALER" else "DEALER")]
+        for i in range(nmsg):
+            fm = [b"", b"q%02d" % i + b"y" * size]
+            bm = ([b"Ca", b""] if pair[0] == "ROUTER" else [b""]) + [b"r%02d" % i + b"z" * size]
+            ops += ["ffeed a " + W.tok(W.msg(fm)), "bfeed x " + W.tok(W.msg(bm))]
+            if i % 5 == 4:
+                ops.append("settle")
+        ops += ["settle", "settle", "fwire a", "bwire x", "status"]
+        out.append("p%d proxy %s %s / %s" % (k, pair[0], pair[1], " / ".join(ops)))
+        k += 1
     # back-pressure on a connection the proxy forwards to (writer answers Pending / takes a few bytes per call): every
     # forwarded message still arrives whole
     for plan in ("p", "p,p,w1", "w1,p,w2,p", "w3,p,p,p,w1,p"):
